@@ -11,7 +11,9 @@ KEY_POOL_QUICK = [
 ]
 # keys with characters that are legal in JSON but special somewhere in Python text handling: Unicode line separators
 # (str.splitlines / textwrap), NEL, a non-printable character next to an astral one, a leading symbol before a digit
-KEY_POOL_ODD = ["line\u2028sep", "para\u2029sep", "nel\x85key", "tab\tastral\U0001F600", "#1st", "(2nd) place", "zero\u200bwidth", "family \U0001F468\u200d\U0001F469"]
+KEY_POOL_ODD = ["line\u2028sep", "para\u2029sep", "nel\x85key", "tab\tastral\U0001F600", "#1st", "(2nd) place", "zero\u200bwidth", "family \U0001F468\u200d\U0001F469",
+                # characters that need escaping inside a Python string literal (the original key is written into aliases / metadata)
+                "dir\\bin", "C:\\temp", "opt\nname", "sq'key", 'dq"key', "trailing\\", "both'\"quotes"]
 # keys whose first character is a symbol (JSON-LD "@context", JSON-Schema "$ref", XML-to-JSON "#text"), and names that are special as
 # method parameters: the generated class name / __init__ signature is where they matter
 KEY_POOL_PREFIXED = ["$ref", "@context", "#text", "#1st", "(2nd) place", "self", "cls", "%used", "<tag>", "~tilde"]
